@@ -393,11 +393,17 @@ type committedView struct {
 	graph *Graph
 }
 
-func captureCommitted(dir string, view []*committedView) error {
+// The graph is replayed in memory from the events read under the lock plus the ones just appended:
+// re-reading the log could fail (I/O error) after the update has already taken effect, and the
+// command would then report a failure for a change it made.
+func captureCommitted(view []*committedView, existing, appended []Event) error {
 	if len(view) == 0 || view[0] == nil {
 		return nil
 	}
-	graph, err := loadGraph(dir)
+	merged := make([]Event, 0, len(existing)+len(appended))
+	merged = append(merged, existing...)
+	merged = append(merged, appended...)
+	graph, err := replayEvents(merged)
 	if err != nil {
 		return err
 	}
@@ -410,7 +416,11 @@ func applySetUpdates(dir string, opts GlobalOptions, id string, updates map[stri
 	eventsPath := getEventsPath(dir)
 
 	return withLock(lockPath, syscall.LOCK_EX, func() error {
-		graph, err := loadGraph(dir)
+		existing, err := readEvents(eventsPath)
+		if err != nil {
+			return err
+		}
+		graph, err := replayEvents(existing)
 		if err != nil {
 			return err
 		}
@@ -431,7 +441,7 @@ func applySetUpdates(dir string, opts GlobalOptions, id string, updates map[stri
 		if err := appendEvents(eventsPath, events); err != nil {
 			return err
 		}
-		if err := captureCommitted(dir, view); err != nil {
+		if err := captureCommitted(view, existing, events); err != nil {
 			return err
 		}
 		if !quiet {
